@@ -51,6 +51,10 @@ def run_query(fit, backend, a, thorough=False):
             i = list(fit.parameter_names).index(p)
             v, s_ = float(fit.parameter_values[i]), float(fit.parameter_errors[i])
             kw = dict(low=v - 2.0 * s_, high=v + 2.0 * s_)
+        if not kw:      # the public route
+            from kafe2.fit.tools.contours_profiler import ContoursProfiler
+            prof = ContoursProfiler(fit, profile_points=7, profile_subtract_min=False).get_profile(p)
+            return dict(profile=np.array(prof))
         prof, arrows = fit._fitter.profile(p, size=7, **kw)
         return dict(profile=np.array(prof))
     if q == "contour":
@@ -64,6 +68,13 @@ def run_query(fit, backend, a, thorough=False):
         d = fit.get_result_dict()
         with tempfile.NamedTemporaryFile(suffix=".yml", dir=os.environ.get("VERIF_TMP", None)) as f:
             fit.to_file(f.name)
+        # a plot of the fit (rendered headless)
+        import matplotlib.pyplot as plt
+        from kafe2 import Plot
+        try:
+            Plot(fit).plot()
+        finally:
+            plt.close("all")
         return dict(report_len=len(buf.getvalue()) > 0, cost=d["cost"])
     raise RuntimeError("adapter: unknown query %r" % q)
 
